@@ -133,3 +133,14 @@ func EnvInt(name string, def int) int {
 	}
 	return n
 }
+
+// Recode converts a decoded JSON value into a typed one.
+func Recode(from any, to any) {
+	b, err := json.Marshal(from)
+	if err != nil {
+		panic(err)
+	}
+	if err := json.Unmarshal(b, to); err != nil {
+		panic(err)
+	}
+}
